@@ -1,7 +1,7 @@
 SPECIFICATION Spec
 CONSTANTS
   MaxOps = 3
-  MaxStmts = 3
+  MaxStmts = 2
   UniqLen = 0
   Devs = {}
 INVARIANTS Agree Valid
